@@ -67,6 +67,21 @@ func (f *Rem) Call(s *slip.Scope, args slip.List, depth int) (result slip.Object
 		var z big.Int
 		_ = z.Rem((*big.Int)(num), div)
 		result = (*slip.Bignum)(&z)
+	case *slip.Ratio:
+		div := (*big.Rat)(d.(*slip.Ratio))
+		if div.Sign() == 0 {
+			slip.ArithmeticPanic(s, depth, slip.Symbol("/"), args, "divide by zero")
+		}
+		// The exact remainder of the truncation division, num - q * div.
+		var (
+			zq big.Rat
+			q  big.Int
+		)
+		_ = zq.Quo((*big.Rat)(num), div)
+		_ = q.Quo(zq.Num(), zq.Denom())
+		_ = zq.SetInt(&q)
+		_ = zq.Mul(&zq, div)
+		result = ratReduce(zq.Sub((*big.Rat)(num), &zq))
 	case slip.Real:
 		div := (d.(slip.Real)).RealValue()
 		nf := num.RealValue()
